@@ -608,6 +608,7 @@ func c09Judge(m *c09Model, res c09Result, eff int, transport string) (fs []c09Fi
 	present := map[refsem.SubjectKey]bool{}
 	inner := map[refsem.SubjectKey]int{}
 	leafLevels := map[refsem.SubjectKey][]int{}
+	innerLevels := map[refsem.SubjectKey][]int{}
 	var walk func(n *c09Node, level int)
 	walk = func(n *c09Node, level int) {
 		st.nodes++
@@ -624,6 +625,7 @@ func c09Judge(m *c09Model, res c09Result, eff int, transport string) (fs []c09Fi
 			return
 		}
 		inner[n.Sub]++
+		innerLevels[n.Sub] = append(innerLevels[n.Sub], level)
 		if n.Type != "union" || !n.Sub.IsSet() || len(n.Children) == 0 {
 			add("malformed-inner-node", fmt.Sprintf("inner node %s has type %q and %d children", n.Sub, n.Type, len(n.Children)))
 		}
@@ -664,12 +666,29 @@ func c09Judge(m *c09Model, res c09Result, eff int, transport string) (fs []c09Fi
 	}
 	if len(missing) > 0 {
 		sort.Slice(missing, func(i, j int) bool { return missing[i] < missing[j] })
-		// Attribution: x is missing because every set that has it as a subject
-		// and lies within depth was left unexpanded. The recorded defect: such a
-		// set shows up as a leaf AT the depth limit (where it was marked
-		// visited) and as a leaf at a shallower level (where it was skipped).
+		// Attribution. Level E(p) = dist(p)+1 is the shallowest level p can
+		// occur at. If a set q is expanded at level E(q), its subjects occur at
+		// their level E. So a subject that does NOT occur at its level E has,
+		// on every shortest chain, a set q that occurs at E(q) < eff as a plain
+		// leaf although it has tuples — or a set that itself does not occur at
+		// its level E (recurse). A plain leaf with tuples above the depth limit
+		// means "already visited". The recorded defect is exactly that: q was
+		// visited earlier on a LONGER chain — kind A: met there at the depth
+		// limit (a leaf at level >= eff, marked visited but never expanded);
+		// kind B: expanded there at a deeper level, so its subtree was cut
+		// earlier. Anything else (a leaf above the limit with no other
+		// occurrence, an expanded set that omits a tuple) is a different defect.
+		occ := func(p refsem.SubjectKey, level int) (leaf, inn bool) {
+			for _, l := range leafLevels[p] {
+				leaf = leaf || l == level
+			}
+			for _, l := range innerLevels[p] {
+				inn = inn || l == level
+			}
+			return
+		}
 		memo := map[refsem.SubjectKey]int{}
-		var culprits []string
+		kindA, kindB := map[string]bool{}, map[string]bool{}
 		var explained func(x refsem.SubjectKey) bool
 		explained = func(x refsem.SubjectKey) bool {
 			if v, ok := memo[x]; ok {
@@ -677,27 +696,37 @@ func c09Judge(m *c09Model, res c09Result, eff int, transport string) (fs []c09Fi
 			}
 			memo[x] = 0
 			n := 0
-			for _, p := range m.g.In(x) {
-				dp, ok := m.dist[p]
-				if !ok || dp > eff-2 {
-					continue // p itself is not within depth; it need not be expanded
+			for _, q := range m.g.In(x) {
+				dq, ok := m.dist[q]
+				if !ok || dq != m.dist[x]-1 {
+					continue // only the sets on shortest chains
 				}
 				n++
+				e := dq + 1
+				leafAtE, innerAtE := occ(q, e)
 				switch {
-				case inner[p] > 0:
-					return false // an expanded set omits one of its tuples
-				case present[p]:
-					atLimit, shallower := false, false
-					for _, l := range leafLevels[p] {
-						atLimit = atLimit || l >= eff
-						shallower = shallower || l < eff
+				case innerAtE:
+					return false // q is expanded at its level E but x does not occur below it
+				case leafAtE && e < eff:
+					deeperInner, limitLeaf := false, false
+					for _, l := range innerLevels[q] {
+						deeperInner = deeperInner || l > e
 					}
-					if !(atLimit && shallower) {
-						return false
+					for _, l := range leafLevels[q] {
+						limitLeaf = limitLeaf || l >= eff
 					}
-					culprits = append(culprits, string(p))
-				default:
-					if !explained(p) {
+					switch {
+					case deeperInner:
+						kindB[string(q)] = true
+					case limitLeaf:
+						kindA[string(q)] = true
+					default:
+						return false // left unexpanded above the depth limit without having been visited elsewhere
+					}
+				case leafAtE:
+					return false // cannot happen for dq <= eff-2
+				default: // q does not occur at its level E either
+					if !explained(q) {
 						return false
 					}
 				}
@@ -712,10 +741,20 @@ func c09Judge(m *c09Model, res c09Result, eff int, transport string) (fs []c09Fi
 		for _, x := range missing {
 			all = all && explained(x)
 		}
-		if all {
-			sort.Strings(culprits)
-			add("incomplete:set-first-met-at-depth-limit-then-shallower", fmt.Sprintf("missing %v (within distance %d of %s): %v left unexpanded — a leaf at the depth limit and again a leaf at a shallower level", missing, eff-1, m.root, uniq(culprits)))
-		} else {
+		keys := func(m map[string]bool) []string {
+			var out []string
+			for k := range m {
+				out = append(out, k)
+			}
+			sort.Strings(out)
+			return out
+		}
+		switch {
+		case all && len(kindB) == 0:
+			add("incomplete:set-first-met-at-depth-limit-then-shallower", fmt.Sprintf("missing %v (within distance %d of %s): %v left unexpanded — a leaf at the depth limit and again a leaf at a shallower level", missing, eff-1, m.root, keys(kindA)))
+		case all:
+			add("incomplete:set-first-expanded-on-a-longer-chain-then-met-shallower", fmt.Sprintf("missing %v (within distance %d of %s): %v expanded at a deeper level than its shortest one and a plain leaf where it is met again at the shallower level (depth-limit leaves met again shallower: %v)", missing, eff-1, m.root, keys(kindB), keys(kindA)))
+		default:
 			add("incomplete:other", fmt.Sprintf("missing %v (within distance %d of %s)", missing, eff-1, m.root))
 		}
 	}
@@ -991,6 +1030,16 @@ func c09UniqInts(xs []int) []int {
 
 // ---- the check -----------------------------------------------------------------------
 
+func c09Listing(c c09Case) string {
+	var b strings.Builder
+	for _, t := range c.Tuples {
+		b.WriteString(string(refsem.Key(t)))
+		b.WriteByte(';')
+	}
+	fmt.Fprintf(&b, "%d/%d", c.Depth.Req, c.Depth.Global)
+	return b.String()
+}
+
 func c09CaseSize(c c09Case) int {
 	tr := map[string]int{"engine": 0, "rest": 1, "grpc": 2}[c.Transport]
 	return len(c.Tuples)*1000 + c.Depth.eff()*10 + tr
@@ -1100,7 +1149,17 @@ func TestC09(t *testing.T) {
 	fmt.Printf("[c09] small family: %d multisets, %d stored states, %d expands in %.1fs\n", doneSets.Load(), r.states.Load(), r.expands.Load(), time.Since(t0).Seconds())
 
 	// report the smallest confirmed counterexample per signature
-	sort.SliceStable(r.cands, func(i, j int) bool { return c09CaseSize(r.cands[i].Case) < c09CaseSize(r.cands[j].Case) })
+	// (size, then the listing itself: the reported counterexample does not depend on worker scheduling)
+	sort.SliceStable(r.cands, func(i, j int) bool {
+		a, b := c09CaseSize(r.cands[i].Case), c09CaseSize(r.cands[j].Case)
+		if a != b {
+			return a < b
+		}
+		if r.cands[i].F.Sig != r.cands[j].F.Sig {
+			return r.cands[i].F.Sig < r.cands[j].F.Sig
+		}
+		return c09Listing(r.cands[i].Case) < c09Listing(r.cands[j].Case)
+	})
 	reported := map[string]bool{}
 	sigCount := map[string]int{}
 	unstable := 0
